@@ -11,7 +11,7 @@ ID = "C03"
 TITLE = "PCovR's latent space does not depend on the computational route"
 TECHNIQUE = 'Hypothesis PBT, differential (feature vs sample space, truncated vs full solver) against a dense eigendecomposition oracle, gap-aware'
 LEVEL = 'Generated-input exploration: latent Gram matrices, predictions, reconstructions, per-component coordinates and reported spectra of every route are compared with each other and with a dense eigh of the independently built modified Gram matrix. No absence claim: strength = the counted distinct non-trivial cases in the evidence.'
-BUDGET = {"quick": 500, "thorough": 5000}
+BUDGET = {"quick": 500, "thorough": 15000}
 RULE = ("Cases: centred, unit-variance X (tall / wide / square, 30% exactly rank-deficient products), 3..14 (thorough: to 48) "
         "rows/columns, Y = XB + noise with 1..3 targets; mixing in {0,.05,.3,.5,.9,1}; n_components drawn up to the rank of "
         "the modified Gram matrix; regressors default Ridge(1e-6), Ridge(alpha), LinearRegression(no intercept) and "
